@@ -145,6 +145,13 @@ CLAIMED = {
         "Tolerance 200 x the requested solver tolerance (x50 for the lower-order IVP methods); decreasing maps are inadmissible for the BVP solver (SciPy rejects a decreasing mesh), clean non-convergence is inadmissible; the random default initial guess is seeded.",
         "DESIGN.md 3/C15",
     ),
+    "C16": (
+        "exploration",
+        "product / deviation-bounded product of a Gaussian density basis (3 exponents x centred / two displacement directions) x angular degree x solver options (boundary value given or computed, origin node, removal of large radii, transform variants incl. a Laguerre grid) for the boundary-value solver, linear combinations, the initial-value solver, the Laplacian interpolant, the robust solver on the shipped core models (exact-cancellation case per element) and core+smooth densities with and without the second split; thorough adds two-centre molecular grids",
+        "Every option combination within the deviation bound is solved and compared at near / far / on-axis / generic points with the analytic Coulomb potential (factor, sign, boundary-value and recombination errors are far above the 1e-3 bound; observed errors 1e-5..4e-4 are in the evidence); linearity is checked to 1e-4 (observed 5e-9).",
+        "Accuracy bounds are the advertised ones (1e-3 BVP, 1e-2 IVP), so a gradual loss of accuracy below them is not decided; exact grid centres are excluded (documented u(0)=0 convention); with include_origin=False only points beyond 1 bohr are compared (documented caveat).",
+        "DESIGN.md 3/C16",
+    ),
 }
 
 NOT_YET = "check not built yet in this session (work in progress; see DESIGN.md section 8 for the order of work)"
